@@ -493,6 +493,7 @@ def _stream_save_sequences(b, tier, seed):
             sa.done()
             snap("done")
             real.close()
+            tctx.master._legacy_log_events.uninstall()
         key = (combo, tuple(order), stop_after)
         b.case(("stream-save", key), nontrivial=True)
         inp = {"flows": list(combo), "completion_order": order, "shutdown_after": stop_after}
@@ -519,6 +520,41 @@ def _stream_save_sequences(b, tier, seed):
                 bounds.append(bounds[-1] + len(o[1]))
         step = 1 if tier == "thorough" else 37
         _check_truncations(b, "stream:" + "+".join(combo), final, bounds, _states(expected_written + remaining_in_set_order(fm, remaining)), sorted(set(range(0, len(final) + 1, step)) | set(bounds) | {x - 1 for x in bounds[1:]} | {x + 1 for x in bounds[:-1]}))
+
+
+def _readfile_addon(b, label, data, bounds, states, offsets):
+    """addons/readfile.py: ReadFile.load_flows hands exactly the complete flows to the master, then returns the count
+    (clean end) or raises FlowReadException"""
+    import io
+    from mitmproxy import exceptions
+    from mitmproxy.addons import readfile
+    from mitmproxy.test import taddons
+    rf = readfile.ReadFile()
+    with taddons.context(rf) as tctx:
+        loaded = []
+
+        async def load_flow(f):
+            loaded.append(f)
+
+        tctx.master.load_flow = load_flow
+        for cut in offsets:
+            loaded.clear()
+            k = sum(1 for e in bounds[1:] if e <= cut)
+            b.case((label, cut, "readfile"), nontrivial=cut not in bounds)
+            inp = {"file": label, "cut": cut, "via": "ReadFile.load_flows"}
+            try:
+                cnt = tctx.master.event_loop.run_until_complete(rf.load_flows(io.BytesIO(data[:cut])))
+                end = "clean"
+            except exceptions.FlowReadException:
+                cnt, end = None, "flow-read-error"
+            except Exception as e:  # noqa: BLE001
+                b.fail("readfile.only_flow_read_errors", inp, f"{type(e).__name__}: {e}")
+                continue
+            if _states(loaded) != states[:k] or (cnt is not None and cnt != k):
+                b.fail("readfile.exactly_the_complete_flows", inp, f"expected {k}, loaded {len(loaded)}, returned {cnt}")
+            if cut in bounds and end != "clean":
+                b.fail("readfile.clean_end_at_record_boundary", inp, end)
+        tctx.master._legacy_log_events.uninstall()   # the test master's log handler would outlive its (closed) loop
 
 
 def remaining_in_set_order(fm, remaining):
@@ -555,6 +591,7 @@ def bounded(tier, seed):
         data, bounds = ioflows.encode_flows(fl)
         _check_truncations(b, "+".join(mix), data, bounds, _states(fl), range(len(data) + 1))
         _check_truncations(b, "+".join(mix), data, bounds, _states(fl), sorted(set(range(0, len(data) + 1, 97)) | set(bounds)), via="file")
+        _readfile_addon(b, "+".join(mix), data, bounds, _states(fl), sorted(set(range(0, len(data) + 1, 53)) | set(bounds)))
     _load_vs_spec(b, tier)
     _stream_save_sequences(b, tier, seed)
     return b
